@@ -63,6 +63,7 @@ func devMain(args []string) {
 	verbose := fs.Bool("v", false, "verbose")
 	onlyFail := fs.Bool("q", false, "print only failures")
 	order := fs.String("solvers", "z3-new,z3", "solver order")
+	doSmoke := fs.Bool("smoke", false, "run vacuity (smoke) checks")
 	fs.Parse(args)
 	t0 := time.Now()
 	P, err := loadProg(*repo, *assumed)
@@ -108,8 +109,20 @@ func devMain(args []string) {
 		}
 	}
 	var obls []*Obligation
+	var smokes []*Obligation
 	for _, u := range units {
 		obls = append(obls, u.VC.obls...)
+		smokes = append(smokes, u.VC.smokes...)
+	}
+	if *doSmoke {
+		scfg := runCfg{dir: *dir + "/smoke", timeout: 2, seed: 0, order: []string{"z3-new"}, workers: runtime.NumCPU(), keep: *keep}
+		dischargeAll(smokes, scfg)
+		for _, o := range smokes {
+			if o.Status != "discharged" {
+				fmt.Printf("   SMOKE-FAIL %s (assumptions are contradictory: %s)\n", o.Name, o.Status)
+			}
+		}
+		fmt.Printf("%d smoke checks\n", len(smokes))
 	}
 	cfg := runCfg{dir: *dir, timeout: *timeout, seed: 0, order: strings.Split(*order, ","), workers: runtime.NumCPU(), keep: *keep}
 	t1 := time.Now()
